@@ -382,7 +382,7 @@ def sec_plumbing(rec, patches=None):
     rec.encodes("acryo/pipe/_transform.py:lowpass_filter")
     seen = []
     RESULT = np.zeros((2, 2, 2), dtype=np.float32)
-    U.lowpass_filter = lambda img, cutoff, order=2: seen.append((img, cutoff, order)) or RESULT
+    U.lowpass_filter = stubs.like(U.lowpass_filter, lambda img, cutoff, order=2, *a, **k: seen.append((img, cutoff, order)) or RESULT)
     tok = np.ones((2, 2, 2), dtype=np.float32)
     c = real("cutoff")
     conv = T.lowpass_filter(c, 3)
